@@ -10,7 +10,7 @@ VERIF = os.path.dirname(os.path.dirname(os.path.dirname(os.path.abspath(__file__
 src = os.path.join(VERIF, "harness", "C04", "spec_selftest.c")
 tmp = tempfile.mkdtemp(prefix="hashes-selftest-")
 exe = os.path.join(tmp, "spec_selftest")
-subprocess.check_call(["gcc", "-O1", "-DVF_NO_GOST", "-I" + VERIF, "-o", exe, src, "-lm"])
+subprocess.check_call(["gcc", "-O1", "-I" + VERIF, "-o", exe, src, "-lm"])
 rc = subprocess.call([exe])
 if rc != 0:
     sys.exit(1)
